@@ -264,6 +264,8 @@ def run_case(idx, rng, tier, rep):
         cfgs[name] = {'header_encoding': rng.choice([None, None, 'utf-8']), 'normalize_inbound_headers': rng.random() < 0.8}
     d = duet.Duet(ccfg=cfgs['c'], scfg=cfgs['s'])
     d.c.watch_events = d.s.watch_events = True
+    # half of the applications reuse the lists, dicts and buffers they pass in as soon as the call has returned
+    d.c.scramble = d.s.scramble = rng.random() < 0.5
     upgraded = rng.random() < 0.12
     if upgraded:
         # h2c upgrade: stream 1 exists from the start, half-closed (local) at the client and half-closed (remote) at the server
@@ -911,6 +913,7 @@ def run_case(idx, rng, tier, rep):
             if queue[dirn] and not sides[y].retired:
                 fail('C01:messages-never-arrived', '%d messages still undelivered after draining %s' % (len(queue[dirn]), dirn))
                 break
+    rep.count('arguments_wrecked_by_the_caller_after_the_call', d.c.scrambled + d.s.scrambled)
     # what was delivered stays delivered: event lists returned earlier must still read as they did when they were returned
     for y in ('c', 's'):
         tap = d.tap(y)
